@@ -92,15 +92,43 @@ def reference_bytes(case):
     return F.encode_file(1, 480, [events_of(case)], charset=case['charset'])[0]
 
 
+class FailingFile:
+    """A writable file object whose n-th write() raises OSError (disk full, broken pipe ...)."""
+
+    def __init__(self, n):
+        self.n = n
+        self.buf = io.BytesIO()
+
+    def write(self, data):
+        if self.n <= 0:
+            raise OSError(28, 'No space left on device')
+        self.n -= 1
+        return self.buf.write(data)
+
+
 def check_success(case):
     cs = case['charset']
     out = []
     mid = build(case)
     buf = io.BytesIO()
     try:
-        mid.save(file=buf)
+        if case.get('via_filename'):
+            import os
+            import tempfile
+            with tempfile.TemporaryDirectory(prefix='c17_') as tmp:
+                path = os.path.join(tmp, 't.mid')
+                mid.save(path)
+                with open(path, 'rb') as f:
+                    buf = io.BytesIO(f.read())
+                back = mido.MidiFile(path, charset=cs)
+                got = [getattr(m, TEXT_ATTR[m.type]) for m in back.tracks[0] if m.type in TEXT_ATTR]
+                if got != [text for _, text in case['texts']]:
+                    out.append(fail('text-roundtrip', f'{cs} (via filename): loaded {got!r}', charset=cs))
+        else:
+            mid.save(file=buf)
     except Exception as exc:  # noqa: BLE001
-        return [fail('save-raises', f'{cs} {case["texts"]!r}: {exc!r}', exc=exc_sig(exc), charset=cs)] + probe('save')
+        return [fail('save-raises', f'{cs} {case["texts"]!r} (via_filename={case.get("via_filename")}): {exc!r}',
+                     exc=exc_sig(exc), charset=cs)] + probe('save')
     out += probe('save', [t for _, t in case['texts']])
     b = buf.getvalue()
     try:
@@ -171,10 +199,11 @@ def check_fault(case):
             mid.tracks.append(mido.MidiTrack())
         elif kind == 'badcharset-save':
             mid.charset = f['name']
+        target = FailingFile(f['n']) if kind == 'write-fails' else io.BytesIO()
         try:
-            mid.save(file=io.BytesIO())
+            mid.save(file=target)
         except Exception as exc:  # noqa: BLE001
-            raised = exc
+            raised = exc            # kept alive (with its traceback and frames) until after the probe below
         where = f'save[{kind}]'
     out = probe(where, [t for _, t in case['texts']] + ([f['text']] if 'text' in f else []))
     case['_raised'] = raised is not None
@@ -248,6 +277,7 @@ def faults_for(case):
         out.append({'kind': 'realtime', 'n': n, 'rt': ['clock', 'start', 'reset'][n % 3]})
         out.append({'kind': 'unencodable', 'n': n, 'text': '☃é퟿\U0001F3B5'})
     out.append({'kind': 'type0'})
+    out += [{'kind': 'write-fails', 'n': n} for n in range(0, 8)]
     out += [{'kind': 'badcharset-save', 'name': nm} for nm in ('utf-8x', 'no_such_codec')]
     return out
 
@@ -269,7 +299,8 @@ def base_cases(draw):
             ok = False
         assume(ok)
         texts.append([t, text])
-    return {'charset': cs, 'texts': texts, 'assign_charset': draw(st.booleans())}
+    return {'charset': cs, 'texts': texts, 'assign_charset': draw(st.booleans()),
+            'via_filename': draw(st.sampled_from([False, False, True]))}
 
 
 def hyp_shard(rec, shard):
@@ -305,6 +336,7 @@ def main(ctx):
                      ('utf-32', ''), ('cp500', 'abc'), ('utf-7', 'a+b'), ('ascii', 'plain'), ('latin1', 'éÿ')):
         ctx.check({'charset': cs, 'texts': [['text', text], ['track_name', text]]})
         ctx.check({'charset': cs, 'texts': [['lyrics', text]], 'assign_charset': True})
+        ctx.check({'charset': cs, 'texts': [['marker', text]], 'via_filename': True})
     ctx.exhaustive = False
     ctx.extra['fault_points'] = 'per drawn file: every truncation offset, 2 high data bytes, 5 undecodable payloads, bad key, ' \
                                 '3+2 bad charset names, float time / real-time / unencodable text at every event index, type-0'
